@@ -8,7 +8,7 @@ import ast
 import re
 
 from ..model import walk_shallow, call_name, is_self_attr, dotted_name, parent, ancestors, enclosing_function, rename_copy
-from ..util import canon
+from ..util import canon, all_guards
 from ..util import (has_call, find_calls, assigned_value, const_str, unparse, kw, arg_or_kw, enclosing_stmt,
                     guards_of, call_tail, control_ancestors)
 from .. import mutate as M
@@ -103,6 +103,7 @@ def run(ctx):
     r7_per_keyword_state(ctx)
     r8_groupby_level(ctx)
     r9_missing_and_copy(ctx)
+    r10_orderable_arguments(ctx, cmpf)
 
 
 def _arms(fn):
@@ -423,6 +424,72 @@ def r6_cache_invalidation(ctx):
                detail=None if p_ is None else {"path_without_recompute": g.describe_path(p_)})
 
 
+def r10_orderable_arguments(ctx, cmpf, rule="C17.R10"):
+    """bisect arms order the argument against the column: whatever a scan would merely test for equality / membership must first be made orderable
+    (None -> Missing) or be taken off the bisect path (string collections: membership in a string is a substring test)."""
+    from ..cfg import CFG, forward
+    from ..util import node_ast_for_effects
+    ctx.rule(rule, "on the bisect path every my_bisect_* call is reached only after (a) a None argument was replaced by Missing, (b) None members of a collection argument were "
+                   "replaced by Missing, and (c) string collections returned through a scan of the range (must-pass on the CFG of Table._compare); the scan arms need none of this")
+    METHOD = cmpf.args.args[-1].arg
+
+    def on_bisect_path(test):
+        t = canon(unparse(test))
+        if t in (canon(f"{METHOD} == 'bisect'"),):
+            return True
+        if t in (canon(f"{METHOD} != 'bisect'"),):
+            return False
+        return None
+    g = CFG(cmpf, test_eval=on_bisect_path)   # the CFG specialised to calls with method == "bisect"
+    A = cmpf.args.args[4].arg if len(cmpf.args.args) > 4 else "arg"
+
+    def facts(node):
+        a = node_ast_for_effects(node)
+        out = set()
+        if a is None:
+            return out
+        if isinstance(a, ast.Assign) and any(isinstance(t, ast.Name) and t.id == A for t in a.targets):
+            v = a.value
+            if unparse(v) == "Missing" and any(canon(unparse(t)) == canon(f"{A} is None") and pol for t, pol in all_guards(a, cmpf)):
+                out.add("none")
+            if isinstance(v, ast.ListComp) and isinstance(v.elt, ast.IfExp) and unparse(v.elt.body) == "Missing" and unparse(v.generators[0].iter) == A \
+                    and canon(unparse(v.elt.test)) == canon(f"{unparse(v.generators[0].target)} is None"):
+                out.add("members")
+        if isinstance(a, ast.Return) and any(isinstance(c, ast.Call) and call_name(c) == "isinstance" and unparse(c.args[0]) == A and unparse(c.args[1]) == "str" and pol
+                                             for t, pol in all_guards(a, cmpf) for c in ast.walk(t)):
+            out.add("str-scan")
+        return out
+    # the three normalisation sites exist
+    found = set()
+    for nd in g.nodes:
+        found |= facts(nd)
+    for f_, what in (("none", "a None argument is replaced by Missing"), ("members", "None members of a collection argument are replaced by Missing"),
+                     ("str-scan", "a string collection is answered by a scan of the range")):
+        ctx.ob(rule, RES, "Table._compare", cmpf, f"on the bisect path {what}", f_ in found, stmt=f"normalisation: {f_}")
+    # ... and they dominate every bisection: passing the `arg is None` test (either edge) is the witness for (a); for (b)/(c) the guards are value dependent,
+    # so the must-pass is on the test nodes themselves
+    tests = {"none": lambda t: canon(t) == canon(f"{A} is None"), "str": lambda t: "isinstance" in t and "str" in t and A in t}
+
+    def transfer(node, st, label):
+        if label in ("exc", "abandon"):
+            return st
+        if node.kind == "test" and node.ast is not None:
+            t = unparse(node.ast)
+            st = st | {k for k, f_ in tests.items() if f_(t)}
+        return st
+    IN = forward(g, frozenset(), transfer, lambda a, b: a & b)
+    n = 0
+    for nd in g.nodes:
+        a = node_ast_for_effects(nd)
+        if a is None or nd.id not in IN:
+            continue
+        for c in [c for c in ast.walk(a) if isinstance(c, ast.Call) and (call_name(c) or "").startswith("my_bisect")]:
+            n += 1
+            ctx.ob(rule, RES, "Table._compare", c, "the bisection is reached only after the None / string-collection tests of the bisect path", {"none", "str"} <= set(IN[nd.id]),
+                   detail={"passed": sorted(IN[nd.id])})
+    ctx.floor(rule, "bisection calls in Table._compare", n, 10)
+
+
 def _drop_le(tree):
     from ..mutate import find_def
     c = find_def(tree, "MissingType")
@@ -430,6 +497,7 @@ def _drop_le(tree):
 
 
 CONTROLS = [
+    ("None is bisected as it is", RES, M.replace_stmt("Table._compare", M.text_has("if arg is None: arg = Missing"), "if is_collection: arg = [Missing if a is None else a for a in arg]"), "C17.R10"),
     ("ranges reused when the index column set is unchanged", RES, M.insert_after("Table._calc_lohis", M.text_has("if not self._indexes"),
         "if self._lohis and self._lohis.keys() == set(self._indexes): return self._lohis"), "C17.R6"),
     ("Missing without <= and >=", RES, _drop_le, "C17.R9"),
